@@ -3,6 +3,7 @@ package main
 // C27 (authentication) and C28 (continuation tokens).
 
 import (
+	"go/types"
 	"fmt"
 	"strings"
 
@@ -37,7 +38,40 @@ func ruleOIDC(e *Engine, r *Reporter) {
 	// unconditional: NewParser's options must not depend on a branch that can skip one (all appended before)
 	// key function: resolves through recv.JWKs.Keyfunc
 	keyOK := false
-	for _, cl := range fn.AnonFuncs {
+	// the key function: the func-typed argument of the parser's Parse* call — a literal closure, a bound method
+	// value or a named function — resolved to its body
+	var keyFns []*ssa.Function
+	eachInstr(fn, false, func(in ssa.Instruction) {
+		c, ok := in.(ssa.CallInstruction)
+		if !ok {
+			return
+		}
+		o := calleeObj(c)
+		if o == nil || !strings.HasPrefix(o.Name(), "Parse") {
+			return
+		}
+		for _, a := range c.Common().Args {
+			if _, isSig := a.Type().Underlying().(*types.Signature); !isSig {
+				continue
+			}
+			switch x := unwrap(a).(type) {
+			case *ssa.MakeClosure:
+				if f, ok := x.Fn.(*ssa.Function); ok {
+					keyFns = append(keyFns, f)
+					if f.Synthetic != "" { // bound method wrapper: look into the method itself
+						if m, ok := f.Object().(*types.Func); ok {
+							if mf := e.Prog.FuncValue(m); mf != nil {
+								keyFns = append(keyFns, mf)
+							}
+						}
+					}
+				}
+			case *ssa.Function:
+				keyFns = append(keyFns, x)
+			}
+		}
+	})
+	for _, cl := range keyFns {
 		eachInstr(cl, false, func(in ssa.Instruction) {
 			if c, ok := in.(*ssa.Call); ok {
 				if g := c.Call.StaticCallee(); g != nil && g.Name() == "Keyfunc" && strings.Contains(describe_(c.Call.Args[0]), "JWKs") {
